@@ -143,6 +143,9 @@ class HttpProxyPlugin(HttpProtocolHandlerPlugin):
         # Requests sent to upstream / responses received completely
         self.requests_forwarded: int = 0
         self.responses_completed: int = 0
+        # Follow-up requests held back until the responses still
+        # outstanding on another origin's connection have been relayed
+        self.deferred_requests: List[HttpParser] = []
 
         self.plugins: Dict[str, HttpProxyBasePlugin] = {}
         if b'HttpProxyBasePlugin' in self.flags.plugins:
@@ -296,6 +299,7 @@ class HttpProxyPlugin(HttpProtocolHandlerPlugin):
                         self.response.parse(raw)
                         if self.response.is_complete:
                             self.responses_completed += 1
+                            self._forward_deferred()
                         self.emit_response_events(len(raw))
                 else:
                     self.response.total_size += len(raw)
@@ -475,35 +479,18 @@ class HttpProxyPlugin(HttpProtocolHandlerPlugin):
                             return
                         self.pipeline_request = r
                     assert self.pipeline_request is not None
-                    if not self.request.is_https_tunnel:
-                        self._switch_upstream_if_needed(self.pipeline_request)
-                    disable_headers = None
-                    if not self.request.is_https_tunnel:
-                        # Follow-up http proxy requests are rewritten like
-                        # the first one: no proxy specific headers for
-                        # upstream, a Via header, args.disable_headers removed.
-                        self.pipeline_request.del_headers(
-                            [
-                                httpHeaders.PROXY_AUTHORIZATION,
-                                httpHeaders.PROXY_CONNECTION,
-                            ],
-                        )
-                        self.pipeline_request.add_headers(
-                            [(b'Via', b'1.1 %s' % PROXY_AGENT_HEADER_VALUE)],
-                        )
-                        disable_headers = self.flags.disable_headers
-                    # TODO(abhinavsingh): Remove memoryview wrapping here after
-                    # parser is fully memoryview compliant
-                    self.upstream.queue(
-                        memoryview(
-                            self.pipeline_request.build(
-                                disable_headers=disable_headers,
-                            ),
-                        ),
-                    )
-                    self.requests_forwarded += 1
-                    if not self.pipeline_request.is_connection_upgrade:
+                    request = self.pipeline_request
+                    if not request.is_connection_upgrade:
                         self.pipeline_request = None
+                    if not self.request.is_https_tunnel and (
+                            len(self.deferred_requests) > 0 or
+                            self._must_wait(request)
+                    ):
+                        # Responses are in request order: wait for
+                        # the outstanding ones before switching origin
+                        self.deferred_requests.append(request)
+                    else:
+                        self._forward_follow_up(request)
                     if rest is not None and len(rest) > 0:
                         self.on_client_data(rest)
             # For scenarios where we cannot peek into the data,
@@ -596,20 +583,58 @@ class HttpProxyPlugin(HttpProtocolHandlerPlugin):
                 self.requests_forwarded += 1
         return False
 
-    def _switch_upstream_if_needed(self, request: HttpParser) -> None:
-        """A follow-up request on a kept-alive client connection may name
-        another origin than the request before it.  Once the previous
-        response has been relayed completely, such a request is sent over
-        a connection to the origin it names."""
+    def _names_other_origin(self, request: HttpParser) -> bool:
+        return request.host is not None and request.port is not None and (
+            request.host != self.request.host or
+            request.port != self.request.port
+        )
+
+    def _must_wait(self, request: HttpParser) -> bool:
+        """A request for another origin cannot be sent while responses
+        are outstanding on the connection to the current one."""
+        return self._names_other_origin(request) and \
+            self.requests_forwarded > self.responses_completed
+
+    def _forward_follow_up(self, request: HttpParser) -> None:
+        """Sends a follow-up request of a kept-alive client connection to
+        the origin it names, over a new upstream connection if that is
+        another origin than the one of the request before it."""
         assert self.upstream is not None
-        if request.host is None or request.port is None or (
-                request.host == self.request.host and
-                request.port == self.request.port
-        ):
-            return
-        if self.requests_forwarded > self.responses_completed:
-            # A response is still outstanding on the current connection
-            return
+        disable_headers = None
+        if not self.request.is_https_tunnel:
+            if self._names_other_origin(request):
+                self._switch_upstream(request)
+            # Follow-up http proxy requests are rewritten like
+            # the first one: no proxy specific headers for
+            # upstream, a Via header, args.disable_headers removed.
+            request.del_headers(
+                [
+                    httpHeaders.PROXY_AUTHORIZATION,
+                    httpHeaders.PROXY_CONNECTION,
+                ],
+            )
+            request.add_headers(
+                [(b'Via', b'1.1 %s' % PROXY_AGENT_HEADER_VALUE)],
+            )
+            disable_headers = self.flags.disable_headers
+        # TODO(abhinavsingh): Remove memoryview wrapping here after
+        # parser is fully memoryview compliant
+        self.upstream.queue(
+            memoryview(
+                request.build(
+                    disable_headers=disable_headers,
+                ),
+            ),
+        )
+        self.requests_forwarded += 1
+
+    def _forward_deferred(self) -> None:
+        while len(self.deferred_requests) > 0 and \
+                not self._must_wait(self.deferred_requests[0]):
+            self._forward_follow_up(self.deferred_requests.pop(0))
+
+    def _switch_upstream(self, request: HttpParser) -> None:
+        assert self.upstream is not None
         previous, first = self.upstream, self.request
         self.request = request
         try:
@@ -624,6 +649,7 @@ class HttpProxyPlugin(HttpProtocolHandlerPlugin):
         elif not previous.closed:
             previous.close()
         self.response = HttpParser(httpParserTypes.RESPONSE_PARSER)
+        self.pipeline_response = None
 
     def handle_pipeline_response(self, raw: memoryview) -> None:
         # Bytes received past the end of the previous response
@@ -642,6 +668,7 @@ class HttpProxyPlugin(HttpProtocolHandlerPlugin):
             raw = self.pipeline_response.buffer or memoryview(b'')
             self.pipeline_response = None
             self.responses_completed += 1
+            self._forward_deferred()
 
     def connect_upstream(self) -> None:
         host, port = self.request.host, self.request.port
